@@ -115,13 +115,17 @@ class Path:
 
 
 class State:
-    __slots__ = ("env", "depth", "needs", "assume", "events", "reads_size")
+    __slots__ = ("env", "depth", "needs", "assume", "events", "reads_size", "mfacts", "last_ret")
 
     def __init__(self):
         self.env, self.depth, self.needs, self.assume, self.events, self.reads_size = {}, {}, {}, {}, [], set()
+        self.mfacts = {}        # member of the builder -> 0 (null / false) or 1, as established by a test on this path
+        self.last_ret = None    # value returned by the callee interpreted last (Lin) - for `if (helper())`
 
     def copy(self):
         s = State()
+        s.mfacts = dict(self.mfacts)
+        s.last_ret = self.last_ret
         s.env = dict(self.env)
         s.depth = dict(self.depth)
         s.needs = {k: list(v) for k, v in self.needs.items()}
@@ -297,7 +301,15 @@ class Interp:
             return self.exec_loop(n, st, depth, fn)
         if k == "return":
             if n.get("e") is not None:
-                return [(s, fl if fl[0] != "next" else ("return",)) for s, fl in self.effects(n["e"], st, depth, fn)]
+                out = []
+                for s, fl in self.effects(n["e"], st, depth, fn):
+                    if fl[0] == "next":
+                        s.last_ret = self.val(n["e"], s)
+                        out.append((s, ("return",)))
+                    else:
+                        out.append((s, fl))
+                return out
+            st.last_ret = None
             return [(st, ("return",))]
         if k in ("break", "continue"):
             return [(st, (k,))]
@@ -331,7 +343,7 @@ class Interp:
                 tuple(sorted((k, (v.key() if isinstance(v, Lin) else None)) for k, v in s.env.items())),
                 tuple(sorted((k, v.key()) for k, v in s.depth.items() if not (v.is_const() and v.c == 0))),
                 tuple(sorted((k, tuple(sorted(x.key() for x in v))) for k, v in s.needs.items() if v)),
-                tuple(sorted(s.assume.items())), tuple(sorted(s.reads_size)))
+                tuple(sorted(s.assume.items())), tuple(sorted(s.reads_size)), tuple(sorted(s.mfacts.items())))
 
     def _merge(self, lst):
         if len(lst) < 2:
@@ -642,17 +654,58 @@ class Interp:
             return self._merge_branches(out)
         if k == "un" and c["op"] == "!":
             return [(s, fl, (not t) if fl[0] == "next" else t) for s, fl, t in self.branch(c["e"], st, depth, fn)]
+        mem = self._member_test(c)
+        is_call = self._strip_casts(c).get("k") == "call" and self._strip_casts(c).get("ck") in ("member", "free", "static")
+        if is_call:
+            st.last_ret = None
         for s1, fl1 in self.effects(c, st, depth, fn):
             if fl1[0] != "next":
                 out.append((s1, fl1, False))
                 continue
             v = self.val(c, s1)
+            if v is None and is_call and isinstance(s1.last_ret, Lin):
+                v = s1.last_ret             # `if (inside_edge())`: what the helper returned on this path
             if isinstance(v, Lin) and v.is_const():
                 out.append((s1, fl1, v.c != 0))
+            elif mem is not None and mem[0] in s1.mfacts:
+                out.append((s1, fl1, bool(s1.mfacts[mem[0]]) == mem[1]))
             else:
+                s2 = s1.copy()
+                if mem is not None:
+                    s1.mfacts[mem[0]] = 1 if mem[1] else 0
+                    s2.mfacts[mem[0]] = 0 if mem[1] else 1
                 out.append((s1, fl1, True))
-                out.append((s1.copy(), fl1, False))
+                out.append((s2, fl1, False))
         return out
+
+    @staticmethod
+    def _strip_casts(e):
+        while isinstance(e, dict) and e.get("k") in ("cast", "paren") and isinstance(e.get("e"), dict):
+            e = e["e"]
+        return e if isinstance(e, dict) else {}
+
+    def _member_of_this(self, e):
+        e = self._strip_casts(e)
+        if e.get("k") == "member" and (e.get("base") is None or self._strip_casts(e.get("base") or {}).get("k") == "this"):
+            return e.get("name")
+        if e.get("k") == "ref" and e.get("dk") in ("member", "field"):
+            return e.get("name")
+        return None
+
+    def _member_test(self, c):
+        """(member, polarity) for `m`, `m != nullptr`, `m == nullptr` on a pointer / bool member of the builder:
+        polarity True means the condition is true when the member is non-null"""
+        c = self._strip_casts(c)
+        m = self._member_of_this(c)
+        if m is not None:
+            return (m, True)
+        if c.get("k") == "bin" and c.get("op") in ("==", "!="):
+            for x, y in ((c["lhs"], c["rhs"]), (c["rhs"], c["lhs"])):
+                m = self._member_of_this(x)
+                y0 = self._strip_casts(y)
+                if m is not None and (y0.get("k") == "null" or (y0.get("k") == "int" and y0.get("v") == 0)):
+                    return (m, c["op"] == "!=")
+        return None
 
     @staticmethod
     def _merge_branches(out):
@@ -814,6 +867,17 @@ class Interp:
         if k == "bin":
             res = self._seq([e["rhs"], e["lhs"]], st, depth, fn)
             op = e["op"]
+            if op.endswith("=") and op not in ("==", "!=", "<=", ">="):
+                m_ = self._member_of_this(e["lhs"])
+                if m_ is not None:
+                    for s1, fl1 in res:
+                        r0 = self._strip_casts(e["rhs"])
+                        if op == "=" and r0.get("k") == "null":
+                            s1.mfacts[m_] = 0
+                        elif op == "=" and r0.get("k") == "un" and r0.get("op") == "&":
+                            s1.mfacts[m_] = 1
+                        else:
+                            s1.mfacts.pop(m_, None)
             if op in ("=", "+=", "-=") and e["lhs"].get("k") == "ref" and e["lhs"].get("dk") in ("param", "local"):
                 for s1, fl1 in res:
                     if fl1[0] == "next":
